@@ -1,13 +1,13 @@
 """C12 — representation options never change what is parsed: relational llsym step between two builds of one program."""
 import time, traceback, copy
-from engines import chk, nm, l3 as l3mod, absm, stepcmp, relcmp, replay, l3check, dfaiso
+from engines import reach, chk, nm, l3 as l3mod, absm, stepcmp, relcmp, replay, l3check, dfaiso
 from checks.c06 import consume
 
 PID = 'C12'
 
 # (name, flags) : every variant is compared against the base build of the same -O level
 VARIANTS_QUICK = [
-    ('dynamic', ('-fallocate-str-space-dynamic',)),
+    ('dynamic-free', ('-fallocate-str-space-dynamic', '-fdelete-string-free-memory')),   # without on-demand the second flag must change nothing
     ('ondemand-free', ('-fallocate-str-space-dynamic-on-demand', '-fdelete-string-free-memory')),
     ('u8', ('-fstrings-as-u8',)),
     ('hook-per-state+userptr+packed', ('-fhook-per-state', '-finclude-user-ptr', '-fuse-packed-enums', '-fuse-pragma-once', '-fno-use-cplusplus-guard')),
@@ -16,6 +16,7 @@ VARIANTS_QUICK = [
 ]
 VARIANTS_THOROUGH = VARIANTS_QUICK + [
     ('ondemand', ('-fallocate-str-space-dynamic-on-demand',)),
+    ('dynamic', ('-fallocate-str-space-dynamic',)),
     ('range20-nocollapse', ('-fno-collapse-transition-ranges',)),
     ('dynamic+u8+indirect', ('-fallocate-str-space-dynamic', '-fstrings-as-u8', '-findirect-start-ptr')),
     ('ondemand-free+hookstate+packed+range2', ('-fallocate-str-space-dynamic-on-demand', '-fdelete-string-free-memory', '-fhook-per-state', '-fuse-packed-enums',
@@ -68,11 +69,45 @@ def work(job):
                     finds += relcmp.rel_state(la, lb, sidx, True, alloc, st, idxmap=idxmap)
         seen = {}
         for f in finds:
-            seen.setdefault((f['detail'], f['pre']['state'], f['sym']), f)
+            seen.setdefault((f['detail'], f['pre']['state'], f['sym'], str(f.get('alloc_b'))), f)
+        mb = None
+        for f in list(seen.values()):
+            cond, datab = f.pop('_cond', None), f.pop('_data_b', None)
+            if not f.get('one_sided_fault'):
+                continue
+            # reachability of the faulting pre-state through the public API (variant machine: it tracks on-demand allocation)
+            if mb is None:
+                mb = absm.Machine(cb.post, lb.layout, strict_done=lb.strict, unsafe_index=cb.cfg['UNSAFE_STRING_INDEXING'], free_on_delete=cb.cfg['DELETE_STRING_FREE_MEMORY'] and lb.ondemand)
+            try:
+                inp = reach.find_input(mb, lb.layout, cb.post.states[idxmap[f['pre']['state']]], cond, datab, maxlen=6 if job['tier'] == 'quick' else 10,
+                                       max_paths=300 if job['tier'] == 'quick' else 2000, ondemand=lb.ondemand, alloc=f['alloc_b'] if lb.ondemand else None)
+            except Exception as e:
+                inp = None
+                st.d['cov'].setdefault('reach_errors', []).append(repr(e)[:120])
+            if inp is None:
+                st.d['cov']['one_sided_faults_unreached_left_to_C03'] = st.d['cov'].get('one_sided_faults_unreached_left_to_C03', 0) + 1
+                for k_, v_ in list(seen.items()):
+                    if v_ is f:
+                        del seen[k_]
+                continue
+            f['reach'] = inp
         for f in seen.values():
             f['label'] = job['label']; f['cname'] = job['cname']; f['flags'] = list(cb.flags)
             f['cfg_on'] = sorted(k for k, v in cb.cfg.items() if v and not k.startswith(('DEBUG', 'VERBOSE')))
             calls = [('end',)] if f['sym'] == 'end' else [('feed', [f['byte']])]
+            if f.get('one_sided_fault'):
+                # from start(): the reaching input, then the faulting byte / end()
+                calls = [('feed', list(f['reach']) + ([f['byte']] if f['sym'] != 'end' else []))] + ([('end',)] if f['sym'] == 'end' else [])
+                l1, d1 = replay.run_c(ca, la.layout, {'calls': calls})
+                l2, d2 = replay.run_c(cb, lb.layout, {'calls': calls})
+                if l1 is None or l2 is None:
+                    f['replay'] = {'reproduced': None, 'note': 'replay build failed ' + (d1 or d2)[:160]}
+                else:
+                    diff = replay.logs_differ(l1, l2, compare_offsets=la.indirect and lb.indirect)
+                    f['replay'] = {'reproduced': diff is not None, 'diff': diff, 'input': calls, 'base': l1[-2:], 'variant': l2[-2:]}
+                f['bytes'] = list(f['reach'])
+                out['findings'].append(f)
+                continue
             pa = f['pre']
             pb = copy.deepcopy(pa)
             pb['state'] = idxmap[pa['state']]
@@ -89,6 +124,13 @@ def work(job):
                     r1 = [e for e in l1 if e[0] == 'RET']
                     if s1 and s2 and idxmap.get(s1[0][1]) != s2[0][1] and r1 and r1[-1][1] in ('OK',):
                         diff = f'control state {s1[0][1]} vs {s2[0][1]}'
+                if diff is None and 'never allocates on demand' in f['detail']:
+                    # the logs print NULL for a NULL buffer pointer (and the comparison reads it as the empty string): in a build without on-demand
+                    # allocation no buffer pointer may ever be NULL after start()
+                    for lg, lx in ((l1, la), (l2, lb)):
+                        rr = [e for e in lg if e[0] == 'RET']
+                        if rr and not lx.ondemand and lx.dynamic and any(str(v).split(':')[-1].startswith('NULL') for v in rr[-1][3].values()):
+                            diff = 'a string buffer pointer is NULL after the step in a build without on-demand allocation: ' + str(rr[-1][3])[:120]
                 f['replay'] = {'reproduced': diff is not None, 'diff': diff, 'base': l1[-2:], 'variant': l2[-2:]}
             out['findings'].append(f)
         st.d['cov']['programs'] = 1
@@ -114,7 +156,7 @@ def main(tier, replay_path):
                 continue
             for vname, vflags in variants:
                 jobs.append({'label': label, 'src': src, 'bname': bname, 'bflags': bflags, 'cname': bname + '~' + vname, 'vflags': vflags,
-                             'state_budget': 24 if tier == 'quick' else 120})
+                             'state_budget': 24 if tier == 'quick' else 120, 'tier': tier})
     jobs.sort(key=lambda j: -len(j['src']))
     l3check_work = l3check.work
     l3check.work = work   # reuse the pool driver
